@@ -264,6 +264,23 @@ LAZY_CELLS = {
 }
 
 
+def _elem_reaches(fn, a, b):
+    """control can flow from element a to element b (a executed first)"""
+    ba, bb = fn.block_of[a['i']], fn.block_of[b['i']]
+    if ba == bb and fn.pos_of[a['i']] < fn.pos_of[b['i']]:
+        return True
+    seen, st = set(), [s for s in fn.succs(ba) if s is not None]
+    while st:
+        x = st.pop()
+        if x in seen:
+            continue
+        seen.add(x)
+        if x == bb:
+            return True
+        st.extend(s for s in fn.succs(x) if s is not None)
+    return False
+
+
 def lazyfill(run, fx, rule):
     for q, cells in LAZY_CELLS.items():
         fn = fx.one(q)
@@ -292,6 +309,22 @@ def lazyfill(run, fx, rule):
                 txt = fn.render(v)
                 inst = '%s: return@%s' % (q.split('::')[-1], e['ln'])
                 cellish = any(txt.startswith(pfx) or txt.startswith('*' + pfx.rstrip('[')) for pfx in cells) or fn.is_null(v)
+                # a local that stands for the cell stands for what the cell held when the local was set: stale once the fill ran
+                raw = fn.strip_all_casts(e['c'][0])
+                if cellish and raw['k'] == 'DeclRefExpr' and raw.get('vid') is not None and not fn.is_null(v) and raw['vid'] not in fn.ref_init:
+                    defs_ = [d for _, d in fn.elements() if (d['k'] == 'DeclStmt' and any(x.get('vid') == raw['vid'] and x.get('init') is not None and
+                                                                                          not (x.get('t') or '').endswith('&') for x in d.get('decls', [])))
+                             or (d['k'] == 'BinaryOperator' and d['op'] == '=' and fn.strip_all_casts(d['c'][0]).get('vid') == raw['vid'])]
+                    fills = [s_ for _, s_ in fn.elements() if s_['k'] in ('BinaryOperator', 'CompoundAssignOperator') and s_['op'].endswith('=')
+                             and s_['op'] not in ('==', '!=', '<=', '>=') and any(fn.render(fn.deref(s_['c'][0])).startswith(pfx) for pfx in cells)]
+                    stale = [(d, s_) for d in defs_ for s_ in fills if _elem_reaches(fn, d, s_) and _elem_reaches(fn, s_, e) and not
+                             any(_elem_reaches(fn, s_, d2) and _elem_reaches(fn, d2, e) and d2 is not d for d2 in defs_)]
+                    if stale:
+                        d, s_ = stale[0]
+                        run.violated(rule, inst, fn.loc(e), 'the call returns the local `%s`, set at line %s from the cell BEFORE the fill at line %s: the call that loads the '
+                                     'value returns the old (empty) one while every later call returns the cached one -- the answer depends on call history' %
+                                     (raw.get('n') or fn.render(raw), d.get('ln'), s_.get('ln')))
+                        continue
                 if cellish:
                     run.held(rule, inst, fn.loc(e), 'returns the cell it filled (%s)' % txt[:60], False)
                 else:
